@@ -225,6 +225,18 @@ pub fn one_case(sys: usize, sh: &Shape, rng: &mut Rng, id: String) -> Case {
                     ),
                     format!("res=ok len={} reads={}", d.len(), canon_recv(&rtr, rx_fd).join("|")),
                 );
+                // ghost buffer (C18): the returned Vec has exactly the announced length, every byte written by the
+                // transport (payload equality above), and the capacity the model's reserve_exact computes
+                case.pair(
+                    format!(
+                        "bounds sys={} n={} total={} pkts={}",
+                        sys,
+                        f + 8,
+                        sh.len,
+                        dfol.iter().map(|x| x.to_string()).collect::<Vec<_>>().join(",")
+                    ),
+                    format!("ok cap={} len={} written={}", d.capacity(), d.len(), d.len()),
+                );
                 if c.len() != sh.nch || s.len() != sh.nshm {
                     case.fail(format!("attachments: sent {}+{}, received {}+{}", sh.nch, sh.nshm, c.len(), s.len()));
                 } else {
@@ -395,6 +407,26 @@ pub fn run(args: &[String]) {
                 let sh = Shape { len: 3000.min(max), nch: cnt, nshm: 0, faults: vec![1] };
                 one_case(sys, &sh, &mut rng, format!("c15-{}-{}", sys, n)).emit();
                 n += 1;
+            }
+        },
+        "c18" => {
+            // message shapes for the buffer arithmetic: boundary lengths x ENOBUFS patterns (short follow-up packets) x attachments
+            let k = if thorough { 6 } else { 4 };
+            let mut lens: Vec<usize> = vec![0, 1, 8, 2001, max - 1, max, max + 1, max + fs - 1, max + fs, max + fs + 1, max + 3 * fs + 7];
+            for _ in 0..(if thorough { 20 } else { 4 }) {
+                lens.push(rng.below(8 * fs as u64) as usize);
+            }
+            for &len in &lens {
+                for &(nch, nshm) in &[(0usize, 0usize), (3, 2), (63, 0)] {
+                    for p in patterns(k) {
+                        if p.iter().filter(|x| **x == 1).count() > 2 {
+                            continue;
+                        }
+                        let sh = Shape { len, nch, nshm, faults: p };
+                        one_case(sys, &sh, &mut rng, format!("c18-{}-{}", sys, n)).emit();
+                        n += 1;
+                    }
+                }
             }
         },
         "replay" => {
